@@ -208,5 +208,25 @@ CHECKS["C17"] = {
     ],
 }
 
+CHECKS["C12"] = {
+    "level": "exploration",
+    "claim": ("Real turn.Client inside a virtual-time bubble against scripted servers (one per transaction): generated RTO (1 ms .. 1.6 s, "
+              "default), loss pattern over the 7 transmissions, response to any transmission after any delay, wrong-id-first / duplicate / "
+              "late / other-source responses, 1-4 concurrent transactions (SendBindingRequestTo, PerformTransaction with and without "
+              "ignoreResult), Close at a drawn instant, socket write failure on any transmission; the 2^7 loss subsets x response position "
+              "are enumerated (all in thorough). Oracles: request datagrams at exactly the reference timetable's instants and never after "
+              "completion, return instant and value (first response with the request's id, or error), no datagram and no table entry left "
+              "afterwards, the bubble drains (no hang)."),
+    "level_note": "Trusted: simnet, the reference timetable M-rtx, testing/synctest's virtual clock. Transaction table size is read by reflection (by type); if unreachable the sub-oracle is skipped and reported.",
+    "technique": "property-based testing under virtual time: rapid-generated loss/response/fault schedules against a reference retransmission timetable; exhaustive loss subsets",
+    "rule": "a case is (RTO, transactions with loss pattern/response plan/faults, close instant); non-trivial = at least one lost transmission together with a response to a retransmission, a wrong-id/duplicate/late response, a Close or a write error; distinct by hash",
+    "assumptions": [],
+    "stages": [
+        {"name": "transactions", "pkg": "cliworld", "run": "^TestC12$",
+         "quick": {"shards": 4, "checks": 4000, "timeout_s": 400},
+         "thorough": {"shards": 16, "checks": 40000, "timeout_s": 2400}},
+    ],
+}
+
 _NOT_BUILT = "check not built yet in this round (planned, see DESIGN.md section 4)"
 PENDING = {("C%02d" % i): _NOT_BUILT for i in range(1, 21)}
